@@ -34,6 +34,7 @@ type histCfg struct {
 	symClock bool
 	reload   bool // step kind "reload": rebuild the replica from its entries with NewLog (what the loaders do)
 	deny     bool // replica 0 refuses entries signed by the last writer
+	pcAlt    int  // if non-zero: each append uses the default pointer count or this one
 	pcN      int  // number of pointer-count alternatives tried at each append (1 = default only)
 	emptyAt  int  // index of the append that carries an empty payload (-1 = none)
 	realIO   bool // the real default CBOR codec over the store's DAG service and real (keystore) identities
@@ -45,7 +46,7 @@ type histCfg struct {
 
 func histParams() histCfg {
 	return histCfg{R: vx.Param("R", 2), K: vx.Param("K", 3), W: vx.Param("W", 2), sort: vx.Param("SORT", sortHash),
-		symClock: vx.Param("SYMCLOCK", 0) == 1, reload: vx.Param("RELOAD", 0) == 1, deny: vx.Param("DENY", 0) == 1, pcN: vx.Param("PCN", 1), emptyAt: vx.Param("EMPTYAT", -1), realIO: vx.Param("REALIO", 0) == 1, setID: vx.Param("SETID", 0) == 1, partial: vx.Param("PARTIAL", 0) >= 1, older: vx.Param("PARTIAL", 0) == 2, denyP: vx.Param("DENYP", -1)}
+		symClock: vx.Param("SYMCLOCK", 0) == 1, reload: vx.Param("RELOAD", 0) == 1, deny: vx.Param("DENY", 0) == 1, pcN: vx.Param("PCN", 1), emptyAt: vx.Param("EMPTYAT", -1), realIO: vx.Param("REALIO", 0) == 1, setID: vx.Param("SETID", 0) == 1, partial: vx.Param("PARTIAL", 0) >= 1, older: vx.Param("PARTIAL", 0) == 2, denyP: vx.Param("DENYP", -1), pcAlt: vx.Param("PCALT", 0)}
 }
 
 var pcTable = []int{0, 2, 4, 3, 8, -1, 16, 1}
@@ -160,6 +161,8 @@ func (h *hist) run(pre func(h *hist), post func(h *hist)) {
 			h.kind, h.dst, h.src = opAppend, op, -1
 			if h.cfg.pcN > 1 {
 				h.pc = pcTable[vx.Choice("pc", h.cfg.pcN)]
+			} else if h.cfg.pcAlt != 0 {
+				h.pc = []int{0, h.cfg.pcAlt}[vx.Choice("pc", 2)]
 			}
 		case op < R+R*(R-1):
 			k := op - R
